@@ -1,7 +1,7 @@
 // C20: replay operation histories on the REAL Xalan containers and string class and record, after
 // every operation, what a user of the class can observe.  usage: xv_c20 cases.ndjson > trace.ndjson
 //
-//   case : {"c":"map"|"set"|"vector"|"list"|"deque"|"string", "p":{parameters}, "ops":[{"op":...},...]}
+//   case : {"c":"map"|"set"|"vector"|"list"|"deque"|"string"|"pool", "p":{parameters}, "ops":[{"op":...},...]}
 //   trace: {"e":"Reset","case":k}  {"e":"Op","c":..,"op":"new",...}  {"e":"Op","c":..,"op":..,args..,"res":..,observation..}
 //          {"e":"Abort","case":k,"status":s}   when the real code crashed / was stopped by a sanitizer / hung
 //
@@ -23,6 +23,7 @@
 #include <xalanc/Include/XalanDeque.hpp>
 #include <xalanc/Include/XalanMap.hpp>
 #include <xalanc/Include/XalanSet.hpp>
+#include <xalanc/PlatformSupport/XalanDOMStringPool.hpp>
 
 using namespace xv;
 
@@ -381,6 +382,45 @@ static void runString(const J& c) {
 }
 
 // ------------------------------------------------------------------ driver
+// ------------------------------------------------------------------ string pool (XalanDOMStringPool over XalanDOMStringHashTable)
+// a pooled string is identified by the order in which the pool first handed out its address (0 = the shared empty string)
+static std::string seqSeqJson(const std::vector<std::vector<long long>>& v) {
+    std::string o = "[";
+    for (size_t i = 0; i < v.size(); ++i) { if (i) o += ","; o += seqJson(v[i]); }
+    return o + "]";
+}
+static void runPool(const J& c) {
+    const J& p = c.at("p");
+    XalanDOMStringPool pool(mm(), XalanDOMStringPool::block_size_type(p.num("block", 32)), size_t(p.num("buckets", 101)), size_t(p.num("bucketSize", 15)));
+    std::vector<const XalanDOMString*> handed;
+    auto idOf = [&](const XalanDOMString* q, bool add) -> long long {
+        if (q == nullptr) return -1;
+        if (q->empty()) return 0;
+        for (size_t i = 0; i < handed.size(); ++i) if (handed[i] == q) return (long long)i + 1;
+        if (!add) return -2;            // an address the pool never handed out
+        handed.push_back(q); return (long long)handed.size();
+    };
+    auto obs = [&]() {
+        std::vector<std::vector<long long>> all;
+        for (const XalanDOMString* q : handed) all.push_back(observe(*q).units);
+        return "\"obs\":{\"size\":" + num((long long)pool.size()) + ",\"table\":" + num((long long)pool.getHashTable().size()) + ",\"strings\":" + seqSeqJson(all) + "}";
+    };
+    emit("{\"e\":\"Op\",\"c\":\"pool\",\"op\":\"new\",\"res\":0,\"got\":[]," + obs() + "}");
+    for (auto& op : c.at("ops").a) {
+        const std::string o = op.str("op");
+        const std::vector<XalanDOMChar> u = unitsOf(srcOf(op));
+        const SZ n = SZ(u.size() - 1);
+        long long res = 0; std::vector<long long> got;
+        if (o == "get") { const XalanDOMString t(&u[0], mm(), n); const XalanDOMString& r = pool.get(t); res = idOf(&r, true); got = observe(r).units; }
+        else if (o == "getz") { const XalanDOMString& r = pool.get(&u[0]); res = idOf(&r, true); got = observe(r).units; }
+        else if (o == "getn") { const XalanDOMString& r = pool.get(&u[0], n); res = idOf(&r, true); got = observe(r).units; }
+        else if (o == "find") { const XalanDOMString t(&u[0], mm(), n); const XalanDOMString* r = pool.getHashTable().find(t); res = idOf(r, false); if (r) got = observe(*r).units; }
+        else if (o == "clear") { pool.clear(); handed.clear(); }
+        else { fprintf(stderr, "pool: unknown op %s\n", o.c_str()); exit(2); }
+        emit("{\"e\":\"Op\",\"c\":\"pool\",\"op\":" + jstr(o) + argsJson(op) + ",\"res\":" + num(res) + ",\"got\":" + seqJson(got) + "," + obs() + "}");
+    }
+}
+
 static void runCase(const J& c, size_t caseNo) {
     emit("{\"e\":\"Reset\",\"case\":" + num((long long)caseNo) + "}");
     Counted::live = 0; Counted::bad = 0; Counted::alive().clear();
@@ -391,6 +431,7 @@ static void runCase(const J& c, size_t caseNo) {
     else if (kind == "list") runList(c);
     else if (kind == "deque") runDeque(c);
     else if (kind == "string") runString(c);
+    else if (kind == "pool") runPool(c);
     else { fprintf(stderr, "unknown container %s\n", kind.c_str()); exit(2); }
 }
 
